@@ -1,30 +1,230 @@
-(* C16 - proofs about ArgVal/AvModel.v *)
+(* C16 - rtosc_arg_vals_eq / rtosc_arg_vals_cmp / iteration / rtosc_avmessage of
+   the model compute, on every well-formed list, the Spec's function of the
+   denotation; the order laws and compression invariance follow. *)
 From Coq Require Import List ZArith Bool Lia.
-From RtoscV Require Import ArgVal.AvModel.
+From RtoscV Require Import ArgVal.AvModel ArgVal.AvSpec ArgVal.AvOrder ArgVal.AvSim ArgVal.AvSingle.
 Import ListNotations.
 Local Open Scope Z_scope.
+Local Arguments Zlength : simpl never.
 
-(* ---- range_arg = start + i*delta ----------------------------------------- *)
-Lemma wrap32_add_idem : forall s x, wrap32 (s + wrap32 x) = wrap32 (s + x).
+(* ---- arrays: the type rule is the comparison of classes --------------------------- *)
+Lemma arr_differ_class : forall lt rt,
+  arr_types_differ lt rt = negb (arr_class lt =? arr_class rt).
 Proof.
-  intros. unfold wrap32.
-  replace (s + ((x + 2 ^ 31) mod 2 ^ 32 - 2 ^ 31) + 2 ^ 31) with (s + (x + 2 ^ 31) mod 2 ^ 32) by lia.
-  rewrite Zplus_mod_idemp_r. f_equal. f_equal. lia.
+  intros. unfold arr_types_differ, arr_class.
+  destruct (Z.eqb_spec lt 84); destruct (Z.eqb_spec rt 84);
+    destruct (Z.eqb_spec lt 70); destruct (Z.eqb_spec rt 70);
+    destruct (Z.eqb_spec lt rt); subst; cbn [negb andb orb]; try lia; try reflexivity;
+    repeat match goal with |- context [?a =? ?b] => destruct (Z.eqb_spec a b) end;
+    cbn [negb andb orb]; try reflexivity; try lia.
 Qed.
 
-Lemma wrap64_add_idem : forall s x, wrap64 (s + wrap64 x) = wrap64 (s + x).
+Lemma abs_arr : forall t es t' es',
+  cmpa (abs (Arr t es)) (abs (Arr t' es')) =
+  match arr_class t ?= arr_class t' with Eq => cmp_values es es' | o => o end.
 Proof.
-  intros. unfold wrap64.
-  replace (s + ((x + 2 ^ 63) mod 2 ^ 64 - 2 ^ 63) + 2 ^ 63) with (s + (x + 2 ^ 63) mod 2 ^ 64) by lia.
-  rewrite Zplus_mod_idemp_r. f_equal. f_equal. lia.
+  intros. cbn [abs]. rewrite cmpa_node, lex_same_head, lex_single.
+  destruct (arr_class t ?= arr_class t'); reflexivity.
 Qed.
 
-Lemma range_arg_int32 : forall F t d s i, t = 105 \/ t = 99 ->
-  range_arg F (SV t (VI d)) (SV t (VI s)) i = Some (t, VI (wrap32 (s + i * d))).
+Lemma cmp_single_sim : forall F rec lp rp v w,
+  points_to F lp v -> points_to F rp w -> nonan v = true -> nonan w = true ->
+  (forall t es t' es' body body' tl tl',
+      v = Arr t es -> w = Arr t' es' -> denote F body es -> denote F body' es' ->
+      rec (body ++ tl) (body' ++ tl') (Zlength body) (Zlength body') =
+      Some (z_of_cmp (cmp_values es es'))) ->
+  cmp_single arr_rule_fixed blob_tail_fixed rec lp rp = Some (z_of_cmp (cmpa (abs v) (abs w))).
 Proof.
-  intros F t d s i [-> | ->]; cbn; now rewrite wrap32_add_idem.
+  intros F rec lp rp v w (e & tl & -> & He) (e' & tl' & -> & He') Hn Hn' Hrec.
+  destruct He as [t sv Hok | t body es Hd]; destruct He' as [t' sv' Hok' | t' body' es' Hd'].
+  - cbn [app abs]. rewrite cmpa_leaf. apply cmp_single_val; auto.
+  - cbn [abs]. rewrite cmpa_node. destruct Hok; reflexivity.
+  - cbn [abs]. rewrite cmpa_node. destruct Hok'; reflexivity.
+  - rewrite abs_arr. cbn [app]. unfold cmp_single. cbn [slot_type].
+    change (97 =? 97) with true. cbv iota.
+    change ((97 =? 105) || (97 =? 99) || (97 =? 114)) with false.
+    change ((97 =? 73) || (97 =? 84) || (97 =? 70) || (97 =? 78)) with false.
+    change (97 =? 102) with false. change (97 =? 100) with false. change (97 =? 104) with false.
+    change (97 =? 116) with false. change (97 =? 109) with false.
+    change ((97 =? 115) || (97 =? 83)) with false. change (97 =? 98) with false.
+    cbv iota. unfold arr_rule_fixed. rewrite arr_differ_class.
+    destruct (Z.compare_spec (arr_class t) (arr_class t')) as [H|H|H].
+    + rewrite H, Z.eqb_refl. cbn [negb]. eapply Hrec; eauto.
+    + replace (arr_class t =? arr_class t') with false by (symmetry; apply Z.eqb_neq; lia).
+      cbn [negb]. replace (arr_class t >? arr_class t') with false
+        by (symmetry; rewrite Z.gtb_ltb; apply Z.ltb_ge; lia). reflexivity.
+    + replace (arr_class t =? arr_class t') with false by (symmetry; apply Z.eqb_neq; lia).
+      cbn [negb]. replace (arr_class t >? arr_class t') with true
+        by (symmetry; rewrite Z.gtb_ltb; apply Z.ltb_lt; lia). reflexivity.
 Qed.
 
-Lemma range_arg_int64 : forall F d s i,
-  range_arg F (SV 104 (VH d)) (SV 104 (VH s)) i = Some (104, VH (wrap64 (s + i * d))).
-Proof. intros; cbn; now rewrite wrap64_add_idem. Qed.
+Lemma eq_single_sim : forall F rec lp rp v w,
+  points_to F lp v -> points_to F rp w -> nonan v = true -> nonan w = true ->
+  (forall t es t' es' body body' tl tl',
+      v = Arr t es -> w = Arr t' es' -> denote F body es -> denote F body' es' ->
+      rec (body ++ tl) (body' ++ tl') (Zlength body) (Zlength body') =
+      Some (is_eq (cmp_values es es'))) ->
+  eq_single rec lp rp = Some (is_eq (cmpa (abs v) (abs w))).
+Proof.
+  intros F rec lp rp v w (e & tl & -> & He) (e' & tl' & -> & He') Hn Hn' Hrec.
+  destruct He as [t sv Hok | t body es Hd]; destruct He' as [t' sv' Hok' | t' body' es' Hd'].
+  - cbn [app abs]. rewrite cmpa_leaf. apply eq_single_val; auto.
+  - cbn [abs]. rewrite cmpa_node. destruct Hok; reflexivity.
+  - cbn [abs]. rewrite cmpa_node. destruct Hok'; reflexivity.
+  - rewrite abs_arr. cbn [app]. unfold eq_single. cbn [slot_type].
+    change (97 =? 97) with true. cbv iota.
+    change ((97 =? 105) || (97 =? 99) || (97 =? 114)) with false.
+    change ((97 =? 73) || (97 =? 84) || (97 =? 70) || (97 =? 78)) with false.
+    change (97 =? 102) with false. change (97 =? 100) with false. change (97 =? 104) with false.
+    change (97 =? 116) with false. change (97 =? 109) with false.
+    change ((97 =? 115) || (97 =? 83)) with false. change (97 =? 98) with false.
+    cbv iota. rewrite arr_differ_class.
+    destruct (Z.compare_spec (arr_class t) (arr_class t')) as [H|H|H].
+    + rewrite H, Z.eqb_refl. cbn [negb]. eapply Hrec; eauto.
+    + replace (arr_class t =? arr_class t') with false by (symmetry; apply Z.eqb_neq; lia).
+      reflexivity.
+    + replace (arr_class t =? arr_class t') with false by (symmetry; apply Z.eqb_neq; lia).
+      reflexivity.
+Qed.
+
+(* ---- loop condition and the test after the loop ------------------------------------ *)
+Lemma head_fin_type : forall it, head_fin it ->
+  exists s rest, av it = s :: rest /\
+    ((slot_type s =? 45) = false \/ exists n hd, s = SRep n hd /\ (n =? 0) = false).
+Proof.
+  intros it (s & rest & Hav & H). exists s, rest. split; auto.
+  destruct (Z.eqb_spec (slot_type s) 45) as [E|E]; auto.
+  right. destruct (H E) as (n & hd & -> & Hn). exists n, hd. split; auto. now apply Z.eqb_neq.
+Qed.
+
+Lemma has_next_both : forall l r ls rs,
+  idx l < ls -> idx r < rs -> head_fin l -> head_fin r -> has_next l r ls rs = Some true.
+Proof.
+  intros l r ls rs Hl Hr Fl Fr. unfold has_next.
+  replace (idx l <? ls) with true by (symmetry; apply Z.ltb_lt; lia).
+  replace (idx r <? rs) with true by (symmetry; apply Z.ltb_lt; lia). cbn [andb].
+  destruct (head_fin_type _ Fl) as (sl & restl & -> & [El | (nl & hl & -> & Hnl)]).
+  - rewrite El. reflexivity.
+  - cbn [slot_type]. change (45 =? 45) with true. cbn [negb].
+    destruct (head_fin_type _ Fr) as (sr & restr & -> & [Er | (nr & hr & -> & Hnr)]).
+    + rewrite Er. reflexivity.
+    + cbn [slot_type]. change (45 =? 45) with true. cbn [negb]. rewrite Hnl. reflexivity.
+Qed.
+
+Lemma abort_side_more : forall it sz, idx it < sz -> head_fin it -> abort_side it sz = Some false.
+Proof.
+  intros it sz Hlt Hf. unfold abort_side.
+  replace (idx it =? sz) with false by (symmetry; apply Z.eqb_neq; lia).
+  destruct (head_fin_type _ Hf) as (s & rest & -> & [E | (n & hd & -> & Hn)]).
+  - rewrite E. reflexivity.
+  - cbn [slot_type]. change (45 =? 45) with true. cbv iota. now rewrite Hn.
+Qed.
+
+Lemma abort_side_done : forall it, abort_side it (idx it) = Some true.
+Proof. intros. unfold abort_side. now rewrite Z.eqb_refl. Qed.
+
+(* ---- fuel ---------------------------------------------------------------------------- *)
+Lemma need_v_arr : forall t es, need_v (Arr t es) = S (need es).
+Proof.
+  intros. reflexivity.
+Qed.
+
+(* ---- rtosc_arg_vals_cmp -------------------------------------------------------------- *)
+Lemma cmp_loop_sim : forall F fuel li ri ls rs lv rv rval,
+  itr_den F ls li lv -> itr_den F rs ri rv ->
+  forallb nonan lv = true -> forallb nonan rv = true ->
+  (need lv < fuel)%nat ->
+  cmp_loop true arr_rule_fixed blob_tail_fixed F fuel li ri ls rs rval =
+  Some (if rval =? 0 then z_of_cmp (cmp_values lv rv) else rval).
+Proof.
+  intros F fuel. induction fuel as [|f IH]; intros li ri ls rs lv rv rval Hl Hr Nl Nr Hfuel; [lia|].
+  cbn [cmp_loop].
+  destruct (itr_den_inv _ _ _ _ Hl) as [[-> Hli] | (v & lv' & lp & li' & -> & Hlt & Hfl & Hgl & Hpl & Hnl & Hdl)].
+  - (* left list exhausted *)
+    assert (Hhn : has_next li ri ls rs = Some false).
+    { unfold has_next. replace (idx li <? ls) with false by (symmetry; apply Z.ltb_ge; lia). reflexivity. }
+    rewrite Hhn. cbn [andb]. destruct (rval =? 0) eqn:Erv; [|reflexivity].
+    unfold eq_after_abort. rewrite <- Hli, abort_side_done.
+    destruct (itr_den_inv _ _ _ _ Hr) as [[-> Hri] | (w & rv' & rp & ri' & -> & Hrt & Hfr & _)].
+    + rewrite <- Hri, abort_side_done. reflexivity.
+    + rewrite (abort_side_more ri rs) by auto.
+      replace (idx li - idx li >? rs - idx ri) with false
+        by (symmetry; rewrite Z.gtb_ltb; apply Z.ltb_ge; lia).
+      reflexivity.
+  - destruct (itr_den_inv _ _ _ _ Hr) as [[-> Hri] | (w & rv' & rp & ri' & -> & Hrt & Hfr & Hgr & Hpr & Hnr & Hdr)].
+    + (* right list exhausted, left not *)
+      assert (Hhn : has_next li ri ls rs = Some false).
+      { unfold has_next. replace (idx ri <? rs) with false by (symmetry; apply Z.ltb_ge; lia).
+        now rewrite andb_false_r. }
+      rewrite Hhn. cbn [andb]. destruct (rval =? 0) eqn:Erv; [|reflexivity].
+      unfold eq_after_abort. rewrite (abort_side_more li ls) by auto.
+      replace (ls - idx li >? rs - idx ri) with true
+        by (symmetry; rewrite Z.gtb_ltb; apply Z.ltb_lt; lia).
+      reflexivity.
+    + rewrite (has_next_both li ri ls rs) by auto. cbn [andb].
+      cbn [need] in Hfuel.
+      assert (Hfl' : (need lv' < f)%nat) by lia.
+      cbn [forallb] in Nl, Nr. apply andb_true_iff in Nl. apply andb_true_iff in Nr.
+      destruct Nl as [Nv Nl]. destruct Nr as [Nw Nr].
+      destruct (rval =? 0) eqn:Erv.
+      * unfold itr_get in Hgl, Hgr. rewrite Hgl, Hgr.
+        rewrite (cmp_single_sim F _ lp rp v w Hpl Hpr Nv Nw).
+        -- rewrite Hnl, Hnr. rewrite (IH li' ri' ls rs lv' rv' _ Hdl Hdr Nl Nr Hfl').
+           unfold cmp_values. cbn [map lex]. fold (cmp_values lv' rv').
+           destruct (cmpa (abs v) (abs w)); reflexivity.
+        -- intros t es t' es' body body' tl tl' -> -> Hb Hb'.
+           rewrite (IH (itr_init (body ++ tl)) (itr_init (body' ++ tl')) (Zlength body) (Zlength body') es es' 0).
+           ++ reflexivity.
+           ++ now apply itr_den_init.
+           ++ now apply itr_den_init.
+           ++ exact Nv.
+           ++ exact Nw.
+           ++ rewrite need_v_arr in Hfuel. lia.
+      * (* rval already decided: one more evaluation of the condition, then return it *)
+        reflexivity.
+Qed.
+
+(* ---- rtosc_arg_vals_eq ----------------------------------------------------------------- *)
+Lemma eq_loop_sim : forall F fuel li ri ls rs lv rv rval,
+  itr_den F ls li lv -> itr_den F rs ri rv ->
+  forallb nonan lv = true -> forallb nonan rv = true ->
+  (need lv < fuel)%nat ->
+  eq_loop true F fuel li ri ls rs rval = Some (rval && is_eq (cmp_values lv rv)).
+Proof.
+  intros F fuel. induction fuel as [|f IH]; intros li ri ls rs lv rv rval Hl Hr Nl Nr Hfuel; [lia|].
+  cbn [eq_loop].
+  destruct (itr_den_inv _ _ _ _ Hl) as [[-> Hli] | (v & lv' & lp & li' & -> & Hlt & Hfl & Hgl & Hpl & Hnl & Hdl)].
+  - assert (Hhn : has_next li ri ls rs = Some false).
+    { unfold has_next. replace (idx li <? ls) with false by (symmetry; apply Z.ltb_ge; lia). reflexivity. }
+    rewrite Hhn. cbn [andb]. destruct rval; [|reflexivity].
+    unfold eq_after_abort. rewrite <- Hli, abort_side_done.
+    destruct (itr_den_inv _ _ _ _ Hr) as [[-> Hri] | (w & rv' & rp & ri' & -> & Hrt & Hfr & _)].
+    + rewrite <- Hri, abort_side_done. reflexivity.
+    + rewrite (abort_side_more ri rs) by auto. reflexivity.
+  - destruct (itr_den_inv _ _ _ _ Hr) as [[-> Hri] | (w & rv' & rp & ri' & -> & Hrt & Hfr & Hgr & Hpr & Hnr & Hdr)].
+    + assert (Hhn : has_next li ri ls rs = Some false).
+      { unfold has_next. replace (idx ri <? rs) with false by (symmetry; apply Z.ltb_ge; lia).
+        now rewrite andb_false_r. }
+      rewrite Hhn. cbn [andb]. destruct rval; [|reflexivity].
+      unfold eq_after_abort. rewrite (abort_side_more li ls) by auto. reflexivity.
+    + rewrite (has_next_both li ri ls rs) by auto. cbn [andb].
+      cbn [need] in Hfuel.
+      assert (Hfl' : (need lv' < f)%nat) by lia.
+      cbn [forallb] in Nl, Nr. apply andb_true_iff in Nl. apply andb_true_iff in Nr.
+      destruct Nl as [Nv Nl]. destruct Nr as [Nw Nr].
+      destruct rval.
+      * unfold itr_get in Hgl, Hgr. rewrite Hgl, Hgr.
+        rewrite (eq_single_sim F _ lp rp v w Hpl Hpr Nv Nw).
+        -- rewrite Hnl, Hnr. rewrite (IH li' ri' ls rs lv' rv' _ Hdl Hdr Nl Nr Hfl').
+           unfold cmp_values. cbn [map lex]. fold (cmp_values lv' rv').
+           destruct (cmpa (abs v) (abs w)); reflexivity.
+        -- intros t es t' es' body body' tl tl' -> -> Hb Hb'.
+           rewrite (IH (itr_init (body ++ tl)) (itr_init (body' ++ tl')) (Zlength body) (Zlength body') es es' true).
+           ++ reflexivity.
+           ++ now apply itr_den_init.
+           ++ now apply itr_den_init.
+           ++ exact Nv.
+           ++ exact Nw.
+           ++ rewrite need_v_arr in Hfuel. lia.
+      * reflexivity.
+Qed.
